@@ -298,11 +298,14 @@ def run(ctx):
         g, res = objcheck.tlc_graph(ctx, "MC_MapDict.tla", "MapDict_thorough.cfg", workers=4)
         g2 = g
         plain_mode = "full,shades"
-    for cls in CLASSES:
+    for ci, cls in enumerate(CLASSES):
+        # the 2-step cover enumerates every (move, successor edge) pair of the graph before sampling: on the thorough graph
+        # (1.3 million edges) that costs ~4 min per class, so thorough runs it on ONE class, rotating with the seed
+        npairs = 40000 if ctx.tier == "quick" else (60000 if (ci + ctx.seed) % 3 == 0 else 0)
         # cover 1: text family 0 (digits); cover 2: family 1 (first bytes 0x40 / 0x80 / 0xbf ...: ASCII and high-bit keys mixed)
         # with shaded values
         objcheck.replay_cover(ctx, g, [tok(INIT)], exe, cls, [cls, str(nk), str(nv), "0", plain_mode], keyfn, walks=walks, jobs=4,
-                              pairs=(40000 if ctx.tier == "quick" else 60000))
+                              pairs=npairs)
         objcheck.replay_cover(ctx, g2, [tok(INIT)], exe, cls + "/highbit-keys", [cls, str(nk), str(nv), "1", "full,shades"], keyfn,
                               walks=(walks if ctx.tier == "quick" else (500, 60)), jobs=4)
     trace_validation(ctx, exe)
